@@ -1,9 +1,10 @@
 SPECIFICATION Spec
 CONSTANTS
   MaskOpusRate = TRUE
-  AudioFrames <- McAudioFrames
-  VideoFrames <- McVideoFrames
+  AudioParams <- McAudioParams
+  VideoParams <- McVideoParams
   AudioBodies <- McAudioBodies
   VideoBodies <- McVideoBodies
+  ShortBodies <- McShortBodies
 INVARIANTS FramesCanonical EncAccepted RoundTrip FirstByte DecCanonical Reproduce SizeOk
 CHECK_DEADLOCK FALSE
